@@ -38,10 +38,11 @@ type behav struct {
 	Self    int  // 0 none, 1 Ack inside, 2 Nack inside
 	Pub     int  // 0 accept, 1 error, 2 panic
 	Pad     int
+	Ctx     int // message context: 0 none (background), 1 live cancelable, 2 cancelled before delivery, 3 cancelled by the handler
 }
 
 func (b behav) String() string {
-	return fmt.Sprintf("out=%d shared=%v err=%d panic=%d self=%d pub=%d pad=%d", b.Outputs, b.Shared, b.Err, b.Panic, b.Self, b.Pub, b.Pad)
+	return fmt.Sprintf("out=%d shared=%v err=%d panic=%d self=%d pub=%d pad=%d ctx=%d", b.Outputs, b.Shared, b.Err, b.Panic, b.Self, b.Pub, b.Pad, b.Ctx)
 }
 
 type caseT struct {
@@ -86,6 +87,7 @@ func genCase(t *rapid.T) caseT {
 			b.Self = rapid.IntRange(1, 2).Draw(t, "selfKind")
 		}
 		b.Pub = rapid.SampledFrom([]int{0, 0, 0, 1, 2}).Draw(t, "pubOutcome")
+		b.Ctx = rapid.SampledFrom([]int{0, 1, 1, 2, 3}).Draw(t, "msgCtx")
 		c.Msgs = append(c.Msgs, b)
 	}
 	c.Noise = rapid.SliceOfN(rapid.Uint8Range(0, 6), 0, 12).Draw(t, "noise")
@@ -96,7 +98,7 @@ func (c caseT) canon() string {
 	var b strings.Builder
 	fmt.Fprintf(&b, "np=%v mw=%v hl=%v bar=%v|", c.NoPublisher, c.Middlewares, c.HandlerLvl, c.Barrier)
 	for _, m := range c.Msgs {
-		fmt.Fprintf(&b, "%d%v%d%d%d%d;", m.Outputs, m.Shared, m.Err, m.Panic, m.Self, m.Pub)
+		fmt.Fprintf(&b, "%d%v%d%d%d%d%d;", m.Outputs, m.Shared, m.Err, m.Panic, m.Self, m.Pub, m.Ctx)
 	}
 	return b.String()
 }
@@ -141,6 +143,7 @@ func runCase(t *rapid.T, c caseT) {
 	var mu sync.Mutex
 	recs := map[string]*msgRec{}
 	deliveries := map[string]*lib.Delivery{}
+	cancels := map[string]context.CancelFunc{}
 	rec := func(tag string) *msgRec {
 		r := recs[tag]
 		if r == nil {
@@ -184,6 +187,14 @@ func runCase(t *rapid.T, c caseT) {
 			}
 		}
 		pad(b.Pad)
+		if b.Ctx == 3 {
+			mu.Lock()
+			cancel := cancels[tag]
+			mu.Unlock()
+			if cancel != nil {
+				cancel()
+			}
+		}
 		switch b.Self {
 		case 1:
 			msg.Ack()
@@ -306,8 +317,19 @@ func runCase(t *rapid.T, c caseT) {
 		m := message.NewMessage("uuid-"+tag, []byte("payload-"+tag))
 		m.Metadata.Set("tag", tag)
 		d := &lib.Delivery{Msg: m, Tag: tag}
+		var cancel context.CancelFunc
+		if k := c.Msgs[i].Ctx; k != 0 {
+			var mctx context.Context
+			mctx, cancel = context.WithCancel(context.Background())
+			defer cancel()
+			m.SetContext(mctx)
+			if k == 2 {
+				cancel()
+			}
+		}
 		mu.Lock()
 		deliveries[tag] = d
+		cancels[tag] = cancel
 		mu.Unlock()
 		dd, ok := s.Emit(m, tag, 0, lib.Live)
 		if !ok {
